@@ -68,7 +68,7 @@ func lower(r *mrand.Rand, n int) string {
 }
 
 // serverName: the SNI values of the property's quantifier - DNS names of all lengths, names with
-// trailing dots (stripped by hostnameInSNI), IP literals (no SNI extension at all).
+// trailing dots (stripped by hostnameInSNI), IP literals (no SNI extension at all), byte-boundary lengths.
 func serverName(r *mrand.Rand, variant int) string {
 	switch variant % 6 {
 	case 0:
@@ -80,14 +80,143 @@ func serverName(r *mrand.Rand, variant int) string {
 	case 3:
 		return lower(r, 3+r.Intn(30)) + strings.Repeat(".", 1+r.Intn(2))
 	case 4:
-		return lower(r, 150+r.Intn(100))
+		// the lengths at which the three nested length fields of server_name cross a byte boundary (name+5, name+3,
+		// name >= 256) and their neighbours; 253 is the longest legal DNS name, the library accepts longer strings
+		return lower(r, []int{250, 251, 252, 253, 254, 255, 256, 257, 300}[r.Intn(9)])
 	}
 	return lower(r, 1+r.Intn(253))
 }
 
-type wanted struct {
-	kinds []extKind
-	spec  tls.ClientHelloSpec
+// connCfg: what the caller puts into the tls.Config handed to UClient. The property is a statement about the
+// SPEC: the wire must not depend on MinVersion/MaxVersion/NextProtos/CipherSuites/CurvePreferences/... of the Config.
+type connCfg struct {
+	Name       string   `json:"server_name"`
+	Omit       bool     `json:"omit_empty_psk"`
+	MinVersion uint16   `json:"min_version"`
+	MaxVersion uint16   `json:"max_version"`
+	NextProtos []string `json:"next_protos"`
+	Other      string   `json:"other"`  // further fields set (not part of the model's cfg)
+	Shared     bool     `json:"shared"` // the *Config object is one reused across parrots (left as the previous connection left it)
+}
+
+var versionChoices = []uint16{0, tls.VersionTLS10, tls.VersionTLS11, tls.VersionTLS12, tls.VersionTLS13}
+
+// variedCfg: every other connection leaves the Config at its defaults; the others set the version bounds
+// (unset / narrower / wider than the spec / inverted), NextProtos and a few more fields at random.
+func variedCfg(r *mrand.Rand, name string, omit bool, vary bool) (connCfg, *tls.Config) {
+	cc := connCfg{Name: name, Omit: omit}
+	cfg := &tls.Config{ServerName: name, InsecureSkipVerify: true, OmitEmptyPsk: omit}
+	if !vary {
+		return cc, cfg
+	}
+	cc.MinVersion = versionChoices[r.Intn(len(versionChoices))]
+	cc.MaxVersion = versionChoices[r.Intn(len(versionChoices))]
+	switch r.Intn(4) {
+	case 1:
+		cc.NextProtos = []string{"h2", "http/1.1"}
+	case 2:
+		cc.NextProtos = []string{"c03-proto"}
+	case 3:
+		cc.NextProtos = []string{"http/1.1"}
+	}
+	cfg.MinVersion, cfg.MaxVersion, cfg.NextProtos = cc.MinVersion, cc.MaxVersion, cc.NextProtos
+	var other []string
+	if r.Intn(3) == 0 {
+		cfg.CipherSuites = []uint16{tls.TLS_RSA_WITH_AES_128_CBC_SHA}
+		other = append(other, "CipherSuites")
+	}
+	if r.Intn(3) == 0 {
+		cfg.CurvePreferences = []tls.CurveID{tls.CurveP384}
+		other = append(other, "CurvePreferences")
+	}
+	if r.Intn(3) == 0 {
+		cfg.SessionTicketsDisabled = true
+		other = append(other, "SessionTicketsDisabled")
+	}
+	if r.Intn(3) == 0 {
+		cfg.Renegotiation = tls.RenegotiateFreelyAsClient
+		other = append(other, "Renegotiation")
+	}
+	if r.Intn(3) == 0 {
+		cfg.DynamicRecordSizingDisabled = true
+		cfg.PreferSkipResumptionOnNilExtension = true
+		other = append(other, "misc")
+	}
+	cc.Other = strings.Join(other, ",")
+	return cc, cfg
+}
+
+// sharedCfg: ONE *tls.Config reused for connections of different parrots, as an application dialling with
+// different fingerprints does; UClient keeps the pointer and the handshake code writes into it (version range,
+// NextProtos, curves, ServerName). Only ServerName / OmitEmptyPsk / Rand are reset by the "application".
+var sharedCfg = &tls.Config{InsecureSkipVerify: true}
+
+func useShared(name string, omit bool) (connCfg, *tls.Config) {
+	sharedCfg.ServerName, sharedCfg.OmitEmptyPsk = name, omit
+	cc := connCfg{Name: name, Omit: omit, MinVersion: sharedCfg.MinVersion, MaxVersion: sharedCfg.MaxVersion,
+		NextProtos: append([]string(nil), sharedCfg.NextProtos...), Shared: true}
+	return cc, sharedCfg
+}
+
+// cfgTerm: the model's cfg record.
+func cfgTerm(cc connCfg) string {
+	var ps []string
+	for _, p := range cc.NextProtos {
+		ps = append(ps, vh.Str(p))
+	}
+	return fmt.Sprintf("{| c_sni := %s; c_omit_psk := %s; c_min_version := %d; c_max_version := %d; c_next_protos := %s |}",
+		vh.Str(extcoq.HostnameInSNI(cc.Name)), vh.Bool(cc.Omit), cc.MinVersion, cc.MaxVersion, vh.List(ps))
+}
+
+// pickCfg: connection k of parrot pi: defaults / varied / the shared object, in rotation.
+func pickCfg(c *vh.Ctx, name string, omit bool, k, pi int) (connCfg, *tls.Config) {
+	switch (k + 2*pi) % 4 {
+	case 0:
+		return variedCfg(c.Rng, name, omit, false)
+	case 3:
+		return useShared(name, omit)
+	}
+	return variedCfg(c.Rng, name, omit, true)
+}
+
+// ---- entropy faults ----
+
+// faultReader replaces crypto/rand.Reader: deterministic bytes, but read number failAt (and every later one
+// unless oneShot) returns an error.
+type faultReader struct {
+	r       *mrand.Rand
+	n       int
+	failAt  int
+	oneShot bool
+	failed  int
+}
+
+func (f *faultReader) Read(p []byte) (int, error) {
+	i := f.n
+	f.n++
+	if i == f.failAt || (!f.oneShot && i > f.failAt) {
+		f.failed++
+		return 0, fmt.Errorf("c03: injected entropy failure at read %d", i)
+	}
+	f.r.Read(p)
+	return len(p), nil
+}
+
+// withFault runs fn while crypto/rand.Reader is the faulty reader (the runner is single-threaded).
+func withFault(f *faultReader, fn func()) (panicked bool, val any) {
+	old := crand.Reader
+	crand.Reader = f
+	defer func() { crand.Reader = old }()
+	return vh.Recover(fn)
+}
+
+func hasECH(p *parrotOut) bool {
+	for _, k := range p.Kinds {
+		if k.ID == 0xfe0d {
+			return true
+		}
+	}
+	return false
 }
 
 // specMax: "spec maximum" of the property text.
@@ -196,6 +325,12 @@ func goOracle(c *vh.Ctx, p *parrotOut, sp *tls.ClientHelloSpec, kinds []extKind,
 }
 
 func run(c *vh.Ctx) {
+	// the fallback of ShuffleChromeTLSExtensions uses the global math/rand source: make it the fixed seed-1
+	// stream (Go >= 1.20 seeds it randomly otherwise) so that a replay sees the same arrangement
+	os.Setenv("GODEBUG", "randautoseed=0")
+	// crypto/rand.Reader of this (single-threaded) process is a deterministic stream derived from the seed: the
+	// Chrome shuffle order and the GREASE ECH draws of a run are reproducible. Faults are injected on top of it.
+	crand.Reader = &logReader{r: mrand.New(mrand.NewSource(c.Rng.Int63()))}
 	repo := os.Getenv("VERIF_REPO")
 	if repo == "" {
 		repo = "/repo"
@@ -222,9 +357,34 @@ func run(c *vh.Ctx) {
 		for k := 0; k < perParrot; k++ {
 			name := serverName(c.Rng, k+pi)
 			if k%3 == 2 {
-				runBuild(c, p, name, k)
+				omit := !(k%6 == 5 && hasPSK(p)) // some PSK parrots also with OmitEmptyPsk=false: ErrEmptyPsk expected
+				cc, cfg := pickCfg(c, name, omit, k, pi)
+				runBuild(c, p, cc, cfg, k, nil)
 			} else {
-				runHello(c, p, name, k)
+				cc, cfg := pickCfg(c, name, true, k, pi)
+				runHello(c, p, cc, cfg, nil)
+			}
+		}
+		// entropy faults: crypto/rand.Reader fails (a) from read #kf on while the spec is generated, the rest of the
+		// connection running on a healthy source; (b) once, at the first read of a whole UClient(id) connection.
+		// (b) is left out for non-shuffling parrots with GREASE ECH: their first crypto/rand use is rand.Read in
+		// GREASEEncryptedClientHelloExtension.init, which in Go 1.24 terminates the process on a read error.
+		nf := 0
+		if p.Shuffles {
+			nf = 2
+		} else if pi%4 == 0 {
+			nf = 1
+		}
+		if c.Tier != "quick" {
+			nf *= 6
+		}
+		for kf := 0; kf < nf; kf++ {
+			name := serverName(c.Rng, kf+pi)
+			cc, cfg := variedCfg(c.Rng, name, true, kf%2 == 1)
+			runBuild(c, p, cc, cfg, 1000+kf, &faultReader{r: mrand.New(mrand.NewSource(c.Rng.Int63())), failAt: kf % 3})
+			if (p.Shuffles || !hasECH(p)) && (p.Shuffles || kf == 0) {
+				cc, cfg := variedCfg(c.Rng, name, true, kf%2 == 0)
+				runHello(c, p, cc, cfg, &faultReader{r: mrand.New(mrand.NewSource(c.Rng.Int63())), failAt: 0, oneShot: true})
 			}
 		}
 		nd := 0
@@ -249,19 +409,38 @@ func run(c *vh.Ctx) {
 	}
 }
 
-func newConn(c *vh.Ctx, id tls.ClientHelloID, name string, omit bool) (*tls.UConn, *recRand) {
+func newConn(c *vh.Ctx, id tls.ClientHelloID, cfg *tls.Config) (*tls.UConn, *recRand) {
 	rec := &recRand{r: mrand.New(mrand.NewSource(c.Rng.Int63()))}
-	cfg := &tls.Config{ServerName: name, InsecureSkipVerify: true, OmitEmptyPsk: omit, Rand: rec}
+	cfg.Rand = rec
 	return tls.UClient(&net.TCPConn{}, cfg, id), rec
 }
 
-// runHello: the ClientHelloID path, as a user of the library takes it.
-func runHello(c *vh.Ctx, p *parrotOut, name string, k int) {
-	uc, _ := newConn(c, p.ID, name, true)
-	input := map[string]any{"parrot": p.Name, "server_name": name, "path": "UClient(id)+BuildHandshakeState"}
+// runHello: the ClientHelloID path, as a user of the library takes it. With fr != nil the whole connection runs
+// with crypto/rand.Reader replaced by the faulty reader.
+func runHello(c *vh.Ctx, p *parrotOut, cc connCfg, cfg *tls.Config, fr *faultReader) {
+	uc, _ := newConn(c, p.ID, cfg)
+	input := map[string]any{"parrot": p.Name, "config": cc, "path": "UClient(id)+BuildHandshakeState"}
+	if fr != nil {
+		input["crypto_rand_fault"] = map[string]any{"fail_at_read": fr.failAt, "one_shot": fr.oneShot, "scope": "whole connection"}
+	}
 	var err error
-	if pan, v := vh.Recover(func() { err = uc.BuildHandshakeState() }); pan || err != nil {
-		c.Fail("build/"+p.Name, "BuildHandshakeState failed for a predefined parrot", input, fmt.Sprint(v, err), "a ClientHello")
+	var pan bool
+	var v any
+	if fr != nil {
+		pan, v = withFault(fr, func() { err = uc.BuildHandshakeState() })
+	} else {
+		pan, v = vh.Recover(func() { err = uc.BuildHandshakeState() })
+	}
+	if pan {
+		c.Fail("build/"+p.Name, "BuildHandshakeState panicked", input, fmt.Sprint(v), "a ClientHello or an error")
+		return
+	}
+	if err != nil {
+		if fr != nil && fr.failed > 0 {
+			c.Count("fault:refused") // an explicit error under an entropy fault is an acceptable outcome
+			return
+		}
+		c.Fail("build/"+p.Name, "BuildHandshakeState failed for a predefined parrot", input, err.Error(), "a ClientHello")
 		return
 	}
 	raw := uc.HandshakeState.Hello.Raw
@@ -270,18 +449,31 @@ func runHello(c *vh.Ctx, p *parrotOut, name string, k int) {
 		c.Fail("framing/"+p.Name, "Hello.Raw is not a well-framed ClientHello", input, vh.Hex(raw), "well-framed")
 		return
 	}
-	sni := extcoq.HostnameInSNI(name)
+	sni := extcoq.HostnameInSNI(cc.Name)
 	// the spec this connection used, in ITS order (uc.Extensions are the spec's objects)
 	var kinds []extKind
 	for _, e := range uc.Extensions {
 		kinds = append(kinds, kindOf(e))
 	}
 	sp, _ := tls.UTLSIdToSpec(p.ID)
+	if p.Shuffles {
+		// the order this connection drew must be the table entry rearranged with the fixed slots unchanged
+		for i, k := range kinds {
+			if i < len(p.Kinds) && (k.Fixed || p.Kinds[i].Fixed) && k != p.Kinds[i] {
+				c.Fail("fixed-position/"+p.Name, fmt.Sprintf("the spec used by this connection holds extension type %d in slot %d, the parrot has the positionally fixed type %d there", k.ID, i, p.Kinds[i].ID),
+					input, kinds, p.Kinds)
+				break
+			}
+		}
+	}
 	goOracle(c, p, &sp, kinds, w, sni, input)
-	term := fmt.Sprintf("(CHello %s %s %s)", vh.Str(p.Name), vh.Str(sni), packed(raw))
+	term := fmt.Sprintf("(CHello %s %s %s)", vh.Str(p.Name), cfgTerm(cc), packed(raw))
 	c.OracleCase("CHello", term, "spec-match/"+p.Name,
 		"the ClientHello does not carry what the parrot's spec (Gen/Parrots.v) describes", input, true)
 	c.Count("sni:" + map[bool]string{true: "absent", false: "present"}[sni == ""])
+	if fr != nil {
+		c.Count(fmt.Sprintf("fault:hello(failed reads %d)", fr.failed))
+	}
 }
 
 func indexOf[T comparable](xs []T, x T) int {
@@ -315,19 +507,42 @@ func permOf(base, draw []string) []int {
 }
 
 // runBuild: UTLSIdToSpec + ApplyPreset on a HelloCustom connection; the model must reproduce Hello.Raw.
-func runBuild(c *vh.Ctx, p *parrotOut, name string, k int) {
-	omit := !(k%6 == 5 && hasPSK(p)) // some PSK parrots also with OmitEmptyPsk=false: ErrEmptyPsk expected
-	uc, rec := newConn(c, tls.HelloCustom, name, omit)
-	spec, err := tls.UTLSIdToSpec(p.ID)
+func runBuild(c *vh.Ctx, p *parrotOut, cc connCfg, cfg *tls.Config, k int, fr *faultReader) {
+	name, omit := cc.Name, cc.Omit
+	uc, rec := newConn(c, tls.HelloCustom, cfg)
+	input := map[string]any{"parrot": p.Name, "config": cc, "path": "UTLSIdToSpec+ApplyPreset"}
+	var spec tls.ClientHelloSpec
+	var err error
+	if fr != nil {
+		// the spec is generated while crypto/rand.Reader fails; everything after runs on the healthy source
+		input["crypto_rand_fault"] = map[string]any{"fail_from_read": fr.failAt, "scope": "UTLSIdToSpec"}
+		if pan, v := withFault(fr, func() { spec, err = tls.UTLSIdToSpec(p.ID) }); pan {
+			c.Fail("build/"+p.Name, "UTLSIdToSpec panicked under an entropy fault", input, fmt.Sprint(v), "a spec or an error")
+			return
+		}
+		c.Count(fmt.Sprintf("fault:spec(failed reads %d)", fr.failed))
+	} else {
+		spec, err = tls.UTLSIdToSpec(p.ID)
+	}
 	if err != nil {
+		if fr != nil && fr.failed > 0 {
+			c.Count("fault:refused")
+		}
 		return
 	}
 	draw, kinds, err := renderExts(spec.Extensions)
 	if err != nil {
 		return
 	}
+	if why := sameShuffleClass(p.Exts, draw, p.Kinds, kinds); why != "" {
+		c.Fail("draws-disagree/"+p.Name, "UTLSIdToSpec result is not the table entry rearranged with GREASE/padding/pre_shared_key in place: "+why,
+			input, draw, p.Exts)
+	}
+	if fr != nil {
+		c.OracleCase("CDraw", fmt.Sprintf("(CDraw %s %s)", vh.Str(p.Name), vh.List(draw)), "draws-disagree/"+p.Name,
+			"UTLSIdToSpec result (Coq draw_ok) is not the table entry rearranged with the fixed slots unchanged", input, p.Shuffles)
+	}
 	perm := permOf(p.Exts, draw)
-	input := map[string]any{"parrot": p.Name, "server_name": name, "path": "UTLSIdToSpec+ApplyPreset", "omit_empty_psk": omit}
 	if perm == nil {
 		c.Fail("draws-disagree/"+p.Name, "UTLSIdToSpec returned a list that is no rearrangement of the table entry", input, draw, p.Exts)
 		return
@@ -421,10 +636,15 @@ func runBuild(c *vh.Ctx, p *parrotOut, name string, k int) {
 				cfgid, vh.Nat(si), e.Off+8, el, vh.Nat(pi), e.Off+10+el, pl))
 		}
 	}
-	term := fmt.Sprintf("(CBuild %s %s %s %s %s %s %s true %s)", vh.Str(p.Name), vh.Str(sni), vh.Bool(omit), nats(perm),
+	term := fmt.Sprintf("(CBuild %s %s %s %s %s %s true %s)", vh.Str(p.Name), cfgTerm(cc), nats(perm),
 		vh.Bytes(grease), vh.List(keys), vh.List(echs), packed(raw))
 	c.Case("CBuild", term, fmt.Sprintf("%s|%s|%d", p.Name, name, k), true,
-		map[string]any{"parrot": p.Name, "server_name": name, "len": len(raw)})
+		map[string]any{"parrot": p.Name, "config": cc, "len": len(raw)})
+	if fr != nil {
+		// and the shuffle-aware property oracle on the bytes of this connection
+		c.OracleCase("CHello", fmt.Sprintf("(CHello %s %s %s)", vh.Str(p.Name), cfgTerm(cc), packed(raw)), "spec-match/"+p.Name,
+			"the ClientHello does not carry what the parrot's spec (Gen/Parrots.v) describes", input, true)
+	}
 }
 
 func hasPSK(p *parrotOut) bool {
@@ -511,9 +731,13 @@ func runShuffle(c *vh.Ctx, t int) {
 		}
 	}
 	orig := append([]tls.TLSExtension(nil), exts...)
+	fault := t%4 == 3 // crypto/rand.Reader fails: the function must still keep the fixed entries in place
 	lr := &logReader{r: mrand.New(mrand.NewSource(c.Rng.Int63()))}
 	old := crand.Reader
 	crand.Reader = lr
+	if fault {
+		crand.Reader = &faultReader{r: mrand.New(mrand.NewSource(1)), failAt: 0}
+	}
 	var out []tls.TLSExtension
 	pan, _ := vh.Recover(func() { out = tls.ShuffleChromeTLSExtensions(exts) })
 	crand.Reader = old
@@ -523,16 +747,20 @@ func runShuffle(c *vh.Ctx, t int) {
 			result = append(result, indexOf(orig, e))
 		}
 	}
-	seed, err := crand.Int(bytes.NewReader(lr.log), big.NewInt(math.MaxInt64))
-	if err != nil {
-		c.Count("shuffle:seed-not-recovered")
-		return
-	}
+	seed := big.NewInt(0)
 	var swaps []string
-	mrand.New(mrand.NewSource(seed.Int64())).Shuffle(n, func(i, j int) {
-		swaps = append(swaps, fmt.Sprintf("(%s, %s)", vh.Nat(i), vh.Nat(j)))
-	})
-	input := map[string]any{"fixed": fixed, "seed": seed.String()}
+	if !fault {
+		var err error
+		seed, err = crand.Int(bytes.NewReader(lr.log), big.NewInt(math.MaxInt64))
+		if err != nil {
+			c.Count("shuffle:seed-not-recovered")
+			return
+		}
+		mrand.New(mrand.NewSource(seed.Int64())).Shuffle(n, func(i, j int) {
+			swaps = append(swaps, fmt.Sprintf("(%s, %s)", vh.Nat(i), vh.Nat(j)))
+		})
+	}
+	input := map[string]any{"fixed": fixed, "seed": seed.String(), "crypto_rand_fails": fault}
 	// Go-side oracle from the property text: same elements, fixed ones in place
 	if !pan {
 		cnt := map[int]int{}
@@ -566,6 +794,14 @@ func runShuffle(c *vh.Ctx, t int) {
 		if r != i {
 			moved = true
 		}
+	}
+	if fault {
+		if !pan {
+			c.OracleCase("CShufflePost", fmt.Sprintf("(CShufflePost %s %s)", vh.List(fx), nats(result)), "shuffle/fault-postcondition",
+				"ShuffleChromeTLSExtensions with a failing crypto/rand violates the postcondition proved for every swap list (permutation, fixed entries in place)",
+				input, moved)
+		}
+		return
 	}
 	c.Case("CShuffle", fmt.Sprintf("(CShuffle %s %s %s %s)", vh.List(fx), vh.List(swaps), vh.Bool(pan), nats(result)),
 		fmt.Sprint(fixed, seed), moved, nil)
